@@ -132,6 +132,139 @@ std::string handle(const std::string& op, Args& a)
 		});
 	}
 	// ---------------------------------------------------------------- 2. Matrix
+	if(op == "c10.mat.hist" || op == "c10.vec.hist")   // mutators and guarded requests on ONE object, in ONE child
+	{
+		bool mat   = op == "c10.mat.hist";
+		unsigned r = U(a), c = mat ? U(a) : 0;
+		size_t k   = a.u64();
+		struct Step
+		{
+			std::string name;
+			std::vector<unsigned> n;
+		};
+		std::vector<Step> steps;
+		for(size_t i = 0; i < k; i++)
+		{
+			std::string t = a.tok();
+			Step st;
+			size_t pos = t.find(':');
+			st.name	   = t.substr(0, pos);
+			while(pos != std::string::npos)
+			{
+				size_t nx = t.find(':', pos + 1);
+				st.n.push_back((unsigned) strtoull(t.substr(pos + 1, nx == std::string::npos ? std::string::npos : nx - pos - 1).c_str(), nullptr, 10));
+				pos = nx;
+			}
+			steps.push_back(st);
+		}
+		a.end();
+		auto need = [](const Step& st, size_t m) {
+			if(st.n.size() != m)
+				throw BadArgs("history step " + st.name);
+		};
+		if(mat)
+		{
+			for(auto& st : steps)
+			{
+				const std::string& n = st.name;
+				if(n == "trace" || n == "transpose")
+					need(st, 0);
+				else if(n == "delrow" || n == "delcol" || n == "prodv" || n == "row" || n == "col")
+					need(st, 1);
+				else if(n == "resize" || n == "assign" || n == "set" || n == "at" || n == "plus" || n == "minus" || n == "addeq" || n == "subeq" || n == "prod")
+					need(st, 2);
+				else
+					throw BadArgs("history step " + n);
+			}
+			return run_forked([&](Out& o) {
+				Matrix M(r, c, 1.5);
+				for(auto& st : steps)
+				{
+					const std::string& n = st.name;
+					if(n == "resize")
+						M.Resize(st.n[0], st.n[1]);
+					else if(n == "assign")
+						M.Assign(st.n[0], st.n[1], 2.5);
+					else if(n == "set")
+						M = Matrix(st.n[0], st.n[1], 3.5);
+					else if(n == "delrow")
+						M.Delete_Row(st.n[0]);
+					else if(n == "delcol")
+						M.Delete_Column(st.n[0]);
+					else if(n == "at")
+					{
+						M[st.n[0]][st.n[1]] += 1.0;
+						const Matrix& cM = M;
+						o << cM[st.n[0]][st.n[1]];
+					}
+					else if(n == "plus")
+						o << M.Plus(Matrix(st.n[0], st.n[1], 0.5)).Rows();
+					else if(n == "minus")
+						o << M.Minus(Matrix(st.n[0], st.n[1], 0.5)).Rows();
+					else if(n == "addeq")
+						M += Matrix(st.n[0], st.n[1], 0.5);
+					else if(n == "subeq")
+						M -= Matrix(st.n[0], st.n[1], 0.5);
+					else if(n == "prod")
+						o << M.Product(Matrix(st.n[0], st.n[1], 0.5)).Columns();
+					else if(n == "prodv")
+						o << M.Product(Vector(st.n[0], 0.5)).Size();
+					else if(n == "trace")
+						o << M.Trace();
+					else if(n == "transpose")
+					{
+						Matrix T = M.Transpose();
+						o << T.Rows() << T.Columns() << T.Norm();
+					}
+					else if(n == "row")
+						o << M.Return_Row(st.n[0]).Size();
+					else if(n == "col")
+						o << M.Return_Column(st.n[0]).Size();
+				}
+				o << M.Rows() << M.Columns();
+			});
+		}
+		for(auto& st : steps)
+		{
+			const std::string& n = st.name;
+			if(!(n == "resize" || n == "assign" || n == "set" || n == "at" || n == "dot" || n == "add" || n == "sub" || n == "addeq" || n == "subeq" || n == "cross"))
+				throw BadArgs("history step " + n);
+			need(st, 1);
+		}
+		return run_forked([&](Out& o) {
+			Vector v(r, 1.5);
+			for(auto& st : steps)
+			{
+				const std::string& n = st.name;
+				unsigned x			 = st.n[0];
+				if(n == "resize")
+					v.Resize(x);
+				else if(n == "assign")
+					v.Assign(x, 2.5);
+				else if(n == "set")
+					v = Vector(x, 3.5);
+				else if(n == "at")
+				{
+					v[x] += 1.0;
+					const Vector& cv = v;
+					o << cv[x];
+				}
+				else if(n == "dot")
+					o << v.Dot(Vector(x, 0.5));
+				else if(n == "add")
+					o << (v + Vector(x, 0.5)).Size();
+				else if(n == "sub")
+					o << (v - Vector(x, 0.5)).Size();
+				else if(n == "addeq")
+					v += Vector(x, 0.5);
+				else if(n == "subeq")
+					v -= Vector(x, 0.5);
+				else if(n == "cross")
+					o << v.Cross(Vector(x, 0.5)).Size();
+			}
+			o << v.Size();
+		});
+	}
 	if(op == "c10.mat.index" || op == "c10.mat.cindex")
 	{
 		unsigned r = U(a), c = U(a), i = U(a);
